@@ -34,6 +34,7 @@ def check(ctx):
     ctx.rule("R3", "every authoritative view (in, [], all_commands, locate_binary, is_only_functional_alias) refreshes the cache before reading it; only lazy* accessors may skip", floor=5)
     ctx.rule("R4", "the rebuild condition covers every input of the merged map: alias names, per-directory listings and the $PATH list itself", floor=3)
     ctx.rule("R5", "specs resolve binaries only through locate_executable", floor=2)
+    ctx.rule("R7", "the validation stamp of a cached directory listing is read before the directory is listed", floor=1)
     ctx.rule("R6", "no memoisation of file-system facts on the lookup path beyond the documented caches (mtime-keyed directory listings, opt-in read-once directories)", floor=2)
 
     ex = ctx.repo.module(EX)
@@ -219,6 +220,82 @@ def check(ctx):
             written_by = [q for q, fn in m_.functions() if any(isinstance(n, (ast.Assign, ast.AugAssign)) and any(isinstance(t, ast.Subscript) and is_name(t.value, name) for t in (n.targets if isinstance(n, ast.Assign) else [n.target])) for n in walk_local(fn)) or any(isinstance(c.func, ast.Attribute) and is_name(c.func.value, name) and c.func.attr in ("add", "update", "setdefault", "append") for c in calls_in(fn))]
             if written_by:
                 ctx.ob("R6", f"{m_.rel}:{name}", f"module-level cache `{name}` (filled by {written_by}) is one of the documented ones", name in ALLOWED_CACHE_GLOBALS, key=f"{m_.rel}|undocumented-module-cache|{name}", where=loc(asg[-1]), detail=ALLOWED_CACHE_GLOBALS.get(name))
+    # ------------------------------------------------------------------ R7
+    # a listing is validated by the directory mtime stored with it: the stamp must be read BEFORE
+    # the directory is listed (a change during the scan then makes the stamp older than the
+    # directory and the next lookup re-lists; a stamp read after the scan certifies a listing
+    # that may already be stale, for ever).  Helpers are expanded so that it does not matter
+    # whether the scan lives in a helper.
+    from ..engine import inline
+
+    cdef = cc.assigns.get("_Commands") or []
+    _commands_fields = ["mtime", "cmds"]
+    if cc.has("_Commands") and isinstance(cc.quals["_Commands"], ast.ClassDef):
+        _commands_fields = [n_.target.id for n_ in cc.quals["_Commands"].body if isinstance(n_, ast.AnnAssign) and isinstance(n_.target, ast.Name)] or _commands_fields
+    if not any("mtime" in f_ or "time" in f_ for f_ in _commands_fields[:1]):
+        raise AnalysisError(f"{CC}: first field of _Commands is not the mtime stamp ({_commands_fields})")
+    del cdef
+    upc = inline.flatten(ctx.repo, cc.func("CommandsCache._update_paths_cache"), depth=2, skip=("executables_in",))
+    loops = [n for n in walk_local(upc) if isinstance(n, ast.For) and any(call_name(c) == "executables_in" for c in calls_in(n))]
+    if len(loops) != 1:
+        raise AnalysisError(f"{CC}:CommandsCache._update_paths_cache: expected one loop that lists directories, found {len(loops)}")
+    lcfg = CFG(loops[0].body)
+    ldefs = df.all_defs(upc)
+    stores = []
+    for n in lcfg.nodes:
+        if n.kind == "stmt" and isinstance(n.ast, ast.Assign) and any(isinstance(t, ast.Subscript) and unparse(t.value) == "self._paths_cache" for t in n.ast.targets):
+            stores.append(n)
+    if not stores:
+        raise AnalysisError(f"{CC}:CommandsCache._update_paths_cache: no store into self._paths_cache inside the listing loop")
+    listing_nodes = [n for n in lcfg.nodes if n.ast is not None and n.kind in ("stmt", "if") and any(call_name(c) == "executables_in" for c in calls_in(n.ast if n.kind == "stmt" else n.ast.test))]
+    for st_ in stores:
+        v = st_.ast.value
+        if isinstance(v, ast.Name):
+            ds = [d for d in ldefs.get(v.id, []) if d.kind == "assign" and isinstance(d.value, ast.Call)]
+            v = ds[-1].value if len(ds) == 1 else v
+        if not (isinstance(v, ast.Call) and call_name(v) == "_Commands"):
+            raise AnalysisError(f"{CC}:CommandsCache._update_paths_cache: `{short(st_.ast, 60)}` does not store a _Commands(stamp, listing)")
+        # arguments in evaluation (= source) order, by role
+        fields = _commands_fields
+        roles = [(fields[i] if i < len(fields) else None, a_) for i, a_ in enumerate(v.args)] + [(k.arg, k.value) for k in v.keywords]
+        stamp = next((e for r_, e in roles if r_ == fields[0]), None)
+        if stamp is None:
+            raise AnalysisError(f"{CC}:CommandsCache._update_paths_cache: `{short(v, 60)}` gives no {fields[0]}")
+        is_mtime = lambda e: any(isinstance(x, ast.Call) and (call_name(x) or "").endswith(("getmtime", "stat")) for x in ast.walk(e))
+        ok = True
+        why = None
+        if isinstance(stamp, ast.Name):
+            # provenance chain through plain copies (`stamp = modified_time`)
+            chain, todo, seen_n = [], [stamp.id], set()
+            while todo:
+                nm = todo.pop()
+                if nm in seen_n:
+                    continue
+                seen_n.add(nm)
+                for d in ldefs.get(nm, []):
+                    chain.append(d)
+                    if isinstance(d.value, ast.Name):
+                        todo.append(d.value.id)
+            dnodes = [dn for d in chain for dn in lcfg.nodes_of(d.stmt)]
+            if not dnodes:
+                raise AnalysisError(f"{CC}:CommandsCache._update_paths_cache: stamp `{stamp.id}` is not defined inside the loop body")
+            after_listing = lcfg.reach(listing_nodes) if listing_nodes else {}
+            for d in chain:
+                same = [dn for d2 in ldefs.get(d.target.id if isinstance(d.target, ast.Name) else "", []) for dn in lcfg.nodes_of(d2.stmt)]
+                for dn in lcfg.nodes_of(d.stmt):
+                    # a definition on the stamp's chain that can run after the listing and still reach the store
+                    if dn in after_listing and dn not in listing_nodes and st_ in lcfg.reach([dn], stop=lambda m_, dn=dn, same=same: m_ in same and m_ is not dn):
+                        if d.value is not None and is_mtime(d.value):
+                            ok, why = False, f"`{short(dn.ast, 60)}` (line {dn.ast.lineno}) reads the mtime after the directory was listed"
+            if not any(d.value is not None and is_mtime(d.value) for d in chain):
+                ok, why = False, "the stamp is not read from the directory's mtime"
+        else:
+            # evaluated in the store statement itself: arguments in source order
+            order = [("stamp" if e is stamp else ("listing" if any(call_name(c) == "executables_in" for c in ast.walk(e) if isinstance(c, ast.Call)) else "other")) for r_, e in roles]
+            ok = is_mtime(stamp) and ("listing" not in order or order.index("stamp") < order.index("listing")) and not (listing_nodes and any(n_ is not st_ for n_ in listing_nodes))
+            why = None if ok else "stamp expression is evaluated after the listing (or is not the directory's mtime)"
+        ctx.ob("R7", f"{CC}:CommandsCache._update_paths_cache", f"`{short(st_.ast, 70)}`: the mtime stamp stored with a listing is read before the directory is listed (stamp-then-scan)", ok, key="paths|stamp-after-scan", where=loc(st_.ast), detail=why)
+
     # ------------------------------------------------------------------ R5
     n_loc = 0
     for q, fn in sp.functions():
